@@ -159,9 +159,11 @@ class C20(Check):
         "L5": "routing and forwarding: the candidate values are routed to parameters / initial values by membership in the model's own "
               "parameter / variable names, and every ensemble / carousel routine forwards each option it accepts (loss, residual, integrator, "
               "bounds, y0, copy flag) under the same name",
+        "L6": "one name order per minimiser: the start vector x0, the bounds list, the names that label a candidate vector for the residual and the "
+              "names that label the optimiser's answer all enumerate the start dictionary in the same order",
         "L4": "standard scaling applies one and the same affine map (x - mean(data)) / std(data) to data and prediction",
     }
-    floors = {"L1": 7, "L2": 10, "L3": 9, "L4": 2, "L5": 12}
+    floors = {"L1": 7, "L2": 10, "L3": 9, "L4": 2, "L5": 12, "L6": 5}
     decided = [
         "which shipped losses are proper discrepancy measures (>= 0, 0 at equality) and which provably are not",
         "with copying enabled (the default) no fit routine hands the caller's model to the optimiser loop",
@@ -176,6 +178,80 @@ class C20(Check):
         self.l3()
         self.l4()
         self.l5()
+        self.l6()
+
+    def l6(self) -> None:
+        from ..core import expand_locals, single_defs
+
+        MINI = "minimizers/_scipy.py"
+        mod = self.prog.module(MINI)
+
+        def order(e, defs, p0):
+            """Order class of a sequence expression relative to the start dictionary."""
+            e = expand_locals(e, defs, depth=4)
+            if isinstance(e, ast.Name):
+                return "p0" if e.id == p0 else f"?{e.id}"
+            if isinstance(e, ast.Call):
+                f = norm(e.func)
+                if isinstance(e.func, ast.Attribute) and e.func.attr in ("keys", "values", "items", "copy") and not e.args:
+                    return order(e.func.value, defs, p0)
+                if f in ("list", "tuple", "iter", "dict", "np.array", "np.asarray", "np.fromiter", "array") and e.args:
+                    return order(e.args[0], defs, p0)
+                if f in ("sorted", "reversed") and e.args:
+                    return f"{f}({order(e.args[0], defs, p0)})" + ("" if not e.keywords else "[" + ",".join(norm(k) for k in e.keywords) + "]")
+                if f == "zip" and e.args:
+                    return order(e.args[0], defs, p0)
+            if isinstance(e, (ast.ListComp, ast.GeneratorExp, ast.DictComp)) and len(e.generators) == 1:
+                g = e.generators[0]
+                o = order(g.iter, defs, p0)
+                return o if not g.ifs else f"filtered({o})"
+            return f"?{norm(e)[:40]}"
+
+        n_cls = 0
+        for cname in sorted(mod.classes if hasattr(mod, "classes") else []):
+            pass
+        for qual, fn in mod.functions.items():
+            if not qual.endswith(".__call__"):
+                continue
+            params = [a.arg for a in fn.args.args]
+            if len(params) < 3:
+                continue
+            p0 = params[2]
+            defs = single_defs(fn, anywhere=True)
+            seqs: list[tuple[str, ast.AST, str]] = []
+            for c in ast.walk(fn):
+                if not isinstance(c, ast.Call):
+                    continue
+                f = norm(c.func)
+                for k in c.keywords:
+                    if k.arg == "x0":
+                        seqs.append(("x0", k.value, order(k.value, defs, p0)))
+                    if k.arg == "bounds" and isinstance(expand_locals(k.value, defs), (ast.ListComp, ast.GeneratorExp, ast.Call)):
+                        seqs.append(("bounds", k.value, order(k.value, defs, p0)))
+                if f == "_pack_updates" and len(c.args) == 2:
+                    seqs.append(("candidate-names", c.args[1], order(c.args[1], defs, p0)))
+                elif f == "zip" and len(c.args) >= 2:
+                    second = norm(expand_locals(c.args[1], defs))
+                    if second.endswith(".x"):
+                        seqs.append(("result-names", c.args[0], order(c.args[0], defs, p0)))
+                    elif any(isinstance(a, ast.Lambda) for a in ast.walk(fn) if any(x is c for x in ast.walk(a))):
+                        seqs.append(("candidate-names", c.args[0], order(c.args[0], defs, p0)))
+            kinds = {k for k, _, _ in seqs}
+            if not {"candidate-names", "result-names"} <= kinds:
+                self.undecided_ob("L6", MINI, qual, "name-order", fn, f"candidate / result labelling not recognised (found {sorted(kinds)})")
+                continue
+            n_cls += 1
+            ref = next(o for k, _, o in seqs if k == "candidate-names")
+            for kind, node, o in seqs:
+                cons = f"order {kind} {norm(node)[:40]}"
+                if o.startswith("?") or "?" in o:
+                    self.undecided_ob("L6", MINI, qual, cons, node, f"order of `{norm(node)[:60]}` not derivable from the start dictionary")
+                elif o == ref:
+                    self.holds("L6", MINI, qual, cons, node, f"{kind} enumerates {o}")
+                else:
+                    self.violated("L6", MINI, qual, cons, node, f"{kind} enumerates `{o}` while the candidate vector is labelled in the order `{ref}`: values are reported (or started, or bounded) under other parameters' names",
+                                  witness="p0 = {'k2': 1.0, 'k1': 5.0}: the optimum of k1 is reported as k2; the reported loss is not the loss at the reported parameters")
+        self.analysed["minimisers_checked"] = n_cls
 
     def l1(self) -> None:
         mod = self.prog.module(LOSSES)
